@@ -13,6 +13,39 @@ use cedar_policy_symcc::{
 use std::collections::BTreeSet;
 use std::str::FromStr;
 
+/// Drives a future that never waits on anything external (the writer "solver" below is an in-memory buffer).
+fn block_on<F: std::future::Future>(f: F) -> F::Output {
+    let mut f = std::pin::pin!(f);
+    let w = std::task::Waker::noop();
+    let mut cx = std::task::Context::from_waker(w);
+    let mut spins = 0u32;
+    loop {
+        if let std::task::Poll::Ready(x) = f.as_mut().poll(&mut cx) {
+            return x;
+        }
+        spins += 1;
+        assert!(spins < 1_000_000, "future did not complete");
+    }
+}
+
+/// verdict of the unoptimised pipeline (`symcc::compiler` + `symcc::verifier`, reached through the deprecated
+/// `check_*` methods): `Ok(true)` = unsatisfiable = the condition holds. On a literal environment the solver must not be
+/// needed; the in-memory writer solver answers "unknown", which is read as "did not reduce to constants".
+fn unopt<E: std::fmt::Display>(r: Result<bool, E>) -> Result<Verdict, String> {
+    match r {
+        Ok(true) => Ok(Verdict::Holds),
+        Ok(false) => Ok(Verdict::Refuted),
+        Err(e) => {
+            let m = e.to_string();
+            if m.to_lowercase().contains("unknown") {
+                Ok(Verdict::NotLiteral)
+            } else {
+                Err(m)
+            }
+        }
+    }
+}
+
 #[derive(Debug, PartialEq, Eq, Clone, Copy)]
 enum Verdict {
     /// all asserts are literal `true`: this environment refutes the verification condition
@@ -123,6 +156,48 @@ fn case(t: &mut Tape, rec: &mut Rec<'_>) {
             }
         }
     }
+    // the same three conditions through the unoptimised compiler
+    #[allow(deprecated)]
+    {
+        use cedar_policy_symcc::{solver::WriterSolver, CedarSymCompiler, WellTypedPolicy};
+        let mut sc = CedarSymCompiler::new(WriterSolver { w: Vec::<u8>::new() }).expect("writer solver");
+        for (id, _, _) in &c.policies {
+            let p: &Policy = c.pset.policy(&PolicyId::new(id)).unwrap();
+            let single = PolicySet::from_policies([p.clone()]).unwrap();
+            let resp = auth.is_authorized(&c.creq, &single, &c.ents);
+            let errs = resp.diagnostics().errors().count() > 0;
+            let matches = resp.diagnostics().reason().count() > 0;
+            let wtp = match WellTypedPolicy::from_policy(p, &req_env, &c.schema) {
+                Ok(w) => w,
+                Err(e) => {
+                    rec.label(format!("skip:unopt-welltyped:{}", e.to_string().chars().take(40).collect::<String>()));
+                    continue;
+                }
+            };
+            let checks: [(&str, Result<Verdict, String>, bool); 3] = [
+                ("unopt:never_errors", unopt(block_on(sc.check_never_errors(&wtp, &symenv))), !errs),
+                ("unopt:always_matches", unopt(block_on(sc.check_always_matches(&wtp, &symenv))), matches),
+                ("unopt:never_matches", unopt(block_on(sc.check_never_matches(&wtp, &symenv))), !matches),
+            ];
+            for (name, v, holds) in checks {
+                let v = match v {
+                    Ok(v) => v,
+                    Err(e) => {
+                        rec.label(format!("skip:unopt-compile:{}", e.chars().take(40).collect::<String>()));
+                        continue;
+                    }
+                };
+                rec.label("unopt:checked");
+                let want = if holds { Verdict::Holds } else { Verdict::Refuted };
+                if v != want {
+                    fail(rec, name, format!("policy {id}: `{name}` reads {v:?} on the literal environment; concrete evaluation: errors={errs} matches={matches} (expected {want:?})"));
+                    if rec.failed() {
+                        return;
+                    }
+                }
+            }
+        }
+    }
     // policy-set conditions: the whole set vs. a subset
     let sub_ids: Vec<&String> = c.policies.iter().map(|(i, _, _)| i).filter(|_| t.coin()).collect();
     let sub = PolicySet::from_policies(sub_ids.iter().map(|i| c.pset.policy(&PolicyId::new(*i)).unwrap().clone())).unwrap();
@@ -153,6 +228,35 @@ fn case(t: &mut Tape, rec: &mut Rec<'_>) {
         }
         (a, b) => {
             rec.label(format!("skip:compile-set:{}", a.err().or(b.err()).map(|e| e.to_string().chars().take(40).collect::<String>()).unwrap_or_default()));
+        }
+    }
+    #[allow(deprecated)]
+    {
+        use cedar_policy_symcc::{solver::WriterSolver, CedarSymCompiler, WellTypedPolicies};
+        let mut sc = CedarSymCompiler::new(WriterSolver { w: Vec::<u8>::new() }).expect("writer solver");
+        if let (Ok(wa), Ok(ws)) = (WellTypedPolicies::from_policies(&c.pset, &req_env, &c.schema), WellTypedPolicies::from_policies(&sub, &req_env, &c.schema)) {
+            let checks: [(&str, Result<Verdict, String>, bool); 6] = [
+                ("unopt:always_allows", unopt(block_on(sc.check_always_allows(&wa, &symenv))), d_all),
+                ("unopt:always_denies", unopt(block_on(sc.check_always_denies(&wa, &symenv))), !d_all),
+                ("unopt:implies(all,sub)", unopt(block_on(sc.check_implies(&wa, &ws, &symenv))), !d_all || d_sub),
+                ("unopt:implies(sub,all)", unopt(block_on(sc.check_implies(&ws, &wa, &symenv))), !d_sub || d_all),
+                ("unopt:equivalent", unopt(block_on(sc.check_equivalent(&wa, &ws, &symenv))), d_all == d_sub),
+                ("unopt:disjoint", unopt(block_on(sc.check_disjoint(&wa, &ws, &symenv))), !(d_all && d_sub)),
+            ];
+            for (name, v, holds) in checks {
+                let Ok(v) = v else {
+                    rec.label("skip:unopt-compile-set");
+                    continue;
+                };
+                rec.label("unopt:set-checked");
+                let want = if holds { Verdict::Holds } else { Verdict::Refuted };
+                if v != want {
+                    fail(rec, name, format!("`{name}` reads {v:?} on the literal environment; concrete decisions: all={} sub({sub_ids:?})={} (expected {want:?})", if d_all { "Allow" } else { "Deny" }, if d_sub { "Allow" } else { "Deny" }));
+                    if rec.failed() {
+                        return;
+                    }
+                }
+            }
         }
     }
     rec.nontrivial = flips > 0 && (c.uses_optional || c.uses_tags || c.max_derefs > 0);
